@@ -405,6 +405,13 @@ func (a *apiGen) request() {
 		if a.rn(2) == 0 {
 			ins = a.inputs()
 		}
+		// boundary for the manual fee estimate: an unconfirmed transaction the wallet knows, output index
+		// one past (or far past) its last output - estimateSignedSize indexes the previous transaction's outputs
+		if len(a.l.pool) > 0 && a.rn(4) == 0 {
+			t := a.l.pool[a.rn(len(a.l.pool))]
+			ins = fmt.Sprintf("tx:%s/%d", t.name, len(t.outs)+a.rn(2)*97)
+			a.g.Stats["fee-in-pending-vout-ge-len"]++
+		}
 		a.call("fee", "GetTransactionFee", a.amounts(), ins, a.pick("0", "0", "1"))
 	case 21:
 		t, _, c := a.txid()
